@@ -158,6 +158,7 @@ func (vc *VC) WriteQuery(o *Obl, dir string, seq int, negate bool, relaxed ...bo
 	}
 	if needRoot {
 		b.WriteString("(assert (forall ((x Int)) (! (=> (> x 0) (= (root x) x)) :pattern ((root x)))))\n")
+		b.WriteString("(assert (= (root 0) 0))\n") // nil owns nothing (elems(nil slice) in a modifies clause stores at array 0)
 	}
 	for _, f := range vc.facts {
 		if f.root && !needRoot {
